@@ -68,7 +68,7 @@ BIG = {"big31": 2 ** 31 - 20, "big32": 2 ** 32 - 20, "big31b": 2 ** 31 - 3, "big
 
 
 # ---------------------------------------------------------------- the query builder as an object (QBuilder.tla)
-QB_XTA = "clock x; int i; process P(){ state L0, L1; init L0; trans L0 -> L1 { guard x>1; }; } system P;"
+QB_XTA = "clock x; int i; int[0,9] arr[3]; process P(){ state L0, L1; init L0; trans L0 -> L1 { guard x>1; }; } system P;"
 QB_TEXT = {"plain": ["A[] i<4", "E<> P.L1", "simulate[<=10; 3]{i, x}", "Pr[<=10](<> P.L1)"],
            "declS": ["strategy S = control: A[] not P.L1", "strategy S = control: A<> P.L1"],
            "declF": ["strategy F = minE(x)[<=10] : <> P.L1", "strategy F = maxE(i)[<=20] : <> P.L1"],
@@ -83,6 +83,9 @@ QB_TEXT = {"plain": ["A[] i<4", "E<> P.L1", "simulate[<=10; 3]{i, x}", "Pr[<=10]
            "typerrS": ["E<> nosuch under S", "Pr[<=10](<> P.L1 + 1 < x.y) under S"],
            "typerrSF": ["maxE(nosuch)[<=10] : <> P.L1 under S imitate F"],
            "throwS": ["A<> (deadlock and P.L1) under S"],
+           "quantq": ["E<> forall (q : int[0,1]) arr[q] > 0", "A[] i > sum (q : int[0,2]) arr[q]"],
+           "usesq": ["E<> q > 0", "A[] arr[q] < 5"],
+           "synerrQ": ["E<> forall (q : int[0,1]) arr[q] +", "E<> i > sum (q : int[0,2]) arr[q] + +", "A[] exists (q : int[0,1]) (arr[q] > 0"],
            "clear": [{"clear": True}]}
 QB_DECL = ("declS", "declF", "declFunderS", "declSerr")
 
@@ -99,12 +102,21 @@ def qb_obs(q):
 def qbuilder_part(c, quick, rnd):
     """histories of queries on ONE builder: every history of QBuilder.tla, replayed on a TigaPropertyBuilder; the last query's result must be the one it
     gives on a builder that has seen only the strategy declarations in force"""
+    consts = "CONSTANTS\n  MaxQueries = %d\n  ResetImit = TRUE\n  ResetOnFail = TRUE\n  ClearDecls = TRUE\n  DeclNeedsProperty = TRUE\n  FramesRestored = %%s\nINIT Init\nNEXT Next\nVIEW View\n" % (3 if quick else 4)
+    # the design: with every reset in place the three invariants hold on every history
     cfg = os.path.join(c.run_dir, "QBuilder.cfg")
-    open(cfg, "w").write("CONSTANTS\n  MaxQueries = %d\n  ResetImit = TRUE\n  ResetOnFail = TRUE\n  ClearDecls = TRUE\n  DeclNeedsProperty = TRUE\nINIT Init\nNEXT Next\nVIEW View\n"
-                         "INVARIANTS IndependentOfOtherQueries NoDangling DeclsAreDeclarations EmitHist\nCHECK_DEADLOCK FALSE\n" % (3 if quick else 4))
+    open(cfg, "w").write(consts % "TRUE" + "INVARIANTS IndependentOfOtherQueries NoDangling DeclsAreDeclarations\nCHECK_DEADLOCK FALSE\n")
     mc = vf.run_tlc("QBuilder", cfg, c.run_dir, timeout=1500, keep_out=False)
-    c.add_tlc("QBuilder", mc, "all histories of queries on one builder object; IndependentOfOtherQueries and NoDangling on every state")
+    c.add_tlc("QBuilder", mc, "all histories of queries on one builder object; IndependentOfOtherQueries, NoDangling and DeclsAreDeclarations on every state")
+    if mc.violated:
+        raise vf.MachineryError("QBuilder.tla: %s is violated with every reset in place" % mc.violated)
+    # the code as it is (the scope stack is not restored): the histories that are replayed, and what the model expects of each
+    cfg = os.path.join(c.run_dir, "QBuilder_code.cfg")
+    open(cfg, "w").write(consts % "FALSE" + "INVARIANTS EmitHist\nCHECK_DEADLOCK FALSE\n")
+    mc = vf.run_tlc("QBuilder", cfg, c.run_dir, timeout=1500, keep_out=False)
+    c.add_tlc("QBuilder_code", mc, "the same with the constants of the code (FramesRestored = FALSE): every history, with the result the model expects and whether it depends on earlier queries")
     hists = [e for e in mc.emitted if e["h"]]
+    c.cov["builder_histories_model_says_dependent"] = len([e for e in hists if not e["indep"]])
     seen, uniq = set(), []
     for e in hists:
         if tuple(e["h"]) not in seen:
@@ -140,7 +152,8 @@ def qbuilder_part(c, quick, rnd):
         a, b = qb_obs(rr["queries"][-1]), qb_obs(r["queries"][-1])
         if a != b:
             d = docgen.diff(a, b)
-            c.finding("c15:builder:%s-after-%s:%s" % (h[-1], "+".join(sorted(set(h[:-1]))) or "-", docgen.diff_class(d[0])),
+            key = "c15:builder:%s:leftover-%s" % (h[-1], "+".join(sorted(e["why"]))) if not e["indep"] else "c15:builder:%s-after-%s:%s" % (h[-1], "+".join(sorted(set(h[:-1]))) or "-", docgen.diff_class(d[0]))
+            c.finding(key,
                       "query %s, parsed with a TigaPropertyBuilder that has parsed %s before, gives a different result than after only the strategy declarations in force (%s) at %s: there %s, here %s" % (
                           json.dumps(qs[-1]), json.dumps(qs[:-1]), json.dumps(ref[:-1]), d[0][0], json.dumps(d[0][1])[:160], json.dumps(d[0][2])[:160]),
                       {"builder_history": h, "queries": qs, "reference": ref, "differences": d})
@@ -150,7 +163,7 @@ def qbuilder_part(c, quick, rnd):
             got = {"has": bool(props), "subj": [s.split(" = ")[0] for s in props[-1]["subjections"]] if props else [],
                    "imit": (props[-1]["imitation"] or "-").split(" = ")[0] if props else "-", "nerr": len(b["errors"]) > 0}
             want = {"has": e["res"]["has"], "subj": list(e["res"]["subj"]), "imit": e["res"]["imit"], "nerr": len(e["res"]["errs"]) > 0}
-            if got != want and a == b:
+            if got != want:
                 drift += 1
                 if drift <= 3:
                     print("DRIFT QBuilder.tla predicts %s for the last query of %s, the builder gives %s" % (json.dumps(want), json.dumps(qs), json.dumps(got)))
@@ -253,6 +266,13 @@ def run(tier):
 def replay(path):
     rec = json.load(open(path))["replay"]
     c = vf.Check("C15", "quick")
+    if "builder_history" in rec:
+        base = {"entry": "xta", "text": QB_XTA, "query_builder": "tiga", "one_builder": True, "clear_errors": True, "timeout": 60}
+        res = vf.run_jobs([dict(base, id="full", queries=rec["queries"]), dict(base, id="ref", queries=rec["reference"])], c.run_dir, variant="asan", harness="model_run")
+        for k in ("full", "ref"):
+            r = res[k]
+            print(k, json.dumps([qb_obs(q) for q in r["queries"]] if "queries" in r else {"outcome": r.get("outcome"), "stderr": (r.get("stderr") or "")[-800:]}, indent=1))
+        return 1
     r = vf.run_jobs([{"id": "r", "calls": rec["calls"]}], c.run_dir, variant="plain", harness="replay_history")["r"]
     k = rec["call_index"]
     print(json.dumps(docgen.diff(record(r["fresh"][k]), record(r["history"][k])), indent=1))
